@@ -42,7 +42,7 @@ std::string knobs_str(const XmlKnobs& k)
     os << "decl=" << k.xml_decl << " doctype=" << k.doctype << " indent=" << k.indent << " sq=" << k.single_quotes
        << " coords=" << k.coords << " shuffle=" << k.attr_shuffle << " esc=" << k.text_escape
        << " comments=" << k.comments_between << " empty=" << k.empty_elems << " pad=" << k.pad_text << " crlf=" << k.crlf
-       << " imports=" << k.imports_elem << " project=" << k.project_root << " big=" << k.big_text_lines << " rate_first=" << k.rate_before_invariant << " comment_in_text=" << k.comment_in_text;
+       << " instantiation=" << k.split_instantiation << " imports=" << k.imports_elem << " project=" << k.project_root << " big=" << k.big_text_lines << " rate_first=" << k.rate_before_invariant << " comment_in_text=" << k.comment_in_text;
     return os.str();
 }
 
@@ -239,14 +239,17 @@ std::string join_params(const std::vector<MParam>& ps, const char* sep = ", ")
     return s;
 }
 
-std::string system_text(const Model& m)
+std::string system_text(const Model& m, int part = 0)  // 0 all, 1 instantiations only, 2 the rest
 {
     if (!m.system_raw.empty())
         return m.system_raw;
     std::ostringstream os;
-    for (auto& d : m.sys_decls)
-        os << d.text << "\n";
+    if (part != 1)
+        for (auto& d : m.sys_decls)
+            os << d.text << "\n";
     for (auto& i : m.insts) {
+        if (part == 2)
+            break;
         os << i.name;
         if (!i.free_params.empty())
             os << "(" << join_params(i.free_params) << ")";
@@ -255,6 +258,8 @@ std::string system_text(const Model& m)
             os << (a ? ", " : "") << i.args[a].text;
         os << ");\n";
     }
+    if (part == 1)
+        return os.str();
     if (!m.chan_priority.empty())
         os << m.chan_priority << "\n";
     os << "system ";
@@ -405,8 +410,12 @@ std::string render_xml(const Model& m, const XmlKnobs& k, Rng& rng, std::map<std
         x.nl();
         x.os << "</template>";
     }
+    // (variables declared in the system block may be used as arguments: then everything stays in <system>)
+    const bool split = k.split_instantiation && m.system_raw.empty() && !m.insts.empty() && m.sys_decls.empty() && !m.omit_system;
+    if (split)
+        x.block("instantiation", system_text(m, 1), true);
     if (!m.omit_system)
-        x.block("system", system_text(m), true);
+        x.block("system", split ? system_text(m, 2) : system_text(m), true);
     if (!m.queries.empty()) {
         x.nl();
         x.os << "<queries>";
